@@ -215,7 +215,7 @@ def run(ctx):
 
 
 def search(ctx):
-    pass
+    ctx.widen(run)
 
 
 def replay(ctx, rp):
